@@ -602,7 +602,7 @@ def _items_check(run, judge, cfgs, plans, what):
 def C04(run):
     q = run.quick()
     cfgs = ["MC_Items_arr", "MC_Items_map", "MC_Items_tag", "MC_Items_chunk", "MC_Items_copysmall"] + ([] if q else ["MC_Items_copy"])
-    mcs, res, out, n, hist, ops, kinds = _items_check(run, "C04", cfgs, [["hist", "700" if q else "20000", "60" if q else "200", "inrange"]], "ownership history")
+    mcs, res, out, n, hist, ops, kinds = _items_check(run, "C04", cfgs, [["hist", "700" if q else "20000", "60" if q else "200"]], "ownership history")
     write_evidence(run, "model_checking", {
         "states": sum(m["distinct"] for m in mcs), "transitions": sum(m["generated"] for m in mcs),
         "traces_validated_against_impl": hist - len(res["rejects"]),
@@ -653,7 +653,7 @@ def C13(run):
     # the ownership histories of C04 under the same allocator: foreign / repeated frees and leaks are judged there as well
     exe2 = build_harness(run, lib, "h_items_w", ITEMS_SRC, extra=WRAP)
     hist = run.path("items.ndjson")
-    _record_simple(run, exe2, ["hist", "200" if q else "5000", "50", "inrange"], hist, "API histories under the instrumenting allocator")
+    _record_simple(run, exe2, ["hist", "200" if q else "5000", "50"], hist, "API histories under the instrumenting allocator")
     bad_end = [l for l in open(hist) if l.startswith('{"e":"end"') and ('"live":0,' not in l or '"foreign":0' not in l)]
     for l in bad_end[:3]:
         report_violation(run, "history-end " + l.strip()[:80], "API history left blocks live or released a foreign/stale pointer: " + l.strip(), {"line": l.strip()})
